@@ -81,6 +81,39 @@ def mixed_chain(d):
     return {"files": files, "top": "top.sv"}
 
 
+def siblings(n, how, tail):
+    """breadth is not depth: n sibling includes / usages in ONE text (each returns before the next starts),
+    followed by a legal chain of depth `tail` in the same text.  how: 'minc' = `include `HDR (file named
+    through a macro), 'inc' = `include "h.svh", 'use' = usage of a macro whose body uses another one,
+    'mixinc' = usage of a macro that expands to an `include"""
+    files = {"h.svh": [pp.tok("h"), pp.nl()]}
+    top = [pp.define("HDR", None, [pp.bt("str", '"h.svh"')]), pp.nl(),
+           pp.define("LEAF", None, [pp.bt("lit", "leaf")]), pp.nl(), pp.define("MID", None, [pp.bt("use", "LEAF")]), pp.nl(),
+           pp.define("MI", None, [pp.bt("inc", "h.svh")]), pp.nl()]
+    for i in range(n):
+        if how == "minc":
+            top += [pp.inc("HDR", form=2), pp.nl()]
+        elif how == "inc":
+            top += [pp.inc("h.svh", form=i % 2), pp.nl()]
+        elif how == "use":
+            top += [pp.use("MID"), pp.nl()]
+        else:
+            top += [pp.use("MI"), pp.nl()]
+    if tail:
+        ch = macro_chain(tail)["files"]["top.sv"] if how in ("minc", "use") else None
+        if ch is not None:
+            top += ch
+        else:
+            inc = include_chain(tail)["files"]
+            for k, its in inc.items():
+                if k == "top.sv":
+                    top += its
+                else:
+                    files[k] = its
+    files["top.sv"] = top
+    return {"files": files, "top": "top.sv"}
+
+
 def run(tier, seed):
     v = vlib.Verdict("C09", tier, seed)
     vlib.build_harness()
@@ -109,6 +142,9 @@ def run(tier, seed):
             fam.append(("mixed_chain", d, mixed_chain(d)))
     for c in (1, 2, 3, 4):
         fam += [("macro_cycle", c, macro_cycle(c)), ("include_cycle", c, include_cycle(c)), ("mixed_cycle", c, mixed_cycle(c))]
+    for how in ("minc", "inc", "use", "mixinc"):
+        for (n, tail) in ((70, 0), (40, 30), (130, 63)):
+            fam.append(("siblings_" + how, "%d+%d" % (n, tail), siblings(n, how, tail)))
     for (kind, n, c) in fam:
         nid += 1
         c["id"] = nid
